@@ -3,6 +3,8 @@
 
 package network
 
+import "time"
+
 // Accessor for the verification harness (property C09); compiled only with
 // the build tag "verif".
 
@@ -12,4 +14,15 @@ func (r *Router) VerifConnCount(id ServerIdentityID) int {
 	r.Lock()
 	defer r.Unlock()
 	return len(r.connections[id])
+}
+
+// VerifSetReadTimeout replaces the read/write time-out of connections (one
+// minute by default) and returns the previous value, so that the reaction to
+// a peer that goes silent without closing can be observed within a check.
+func VerifSetReadTimeout(d time.Duration) time.Duration {
+	timeoutLock.Lock()
+	defer timeoutLock.Unlock()
+	old := timeout
+	timeout = d
+	return old
 }
